@@ -459,6 +459,12 @@ def run(ctx, chk):
     sub_l = Sub(chk, "C03-a", lambda r: r.startswith(("C16-d/", "C16-f/")))
     rules_c16.run(ctx, sub_l)
     chk.floor("LLVAR prefix obligations (shared with C16-d/f)", sub_l.count, 4)
+    # optional / repeated rows: the generic wrappers write a present field exactly as the field itself (shared with C12-h)
+    import rules_c12
+    sub_o = Sub(chk, "C03-a", lambda r: r in ("C12-h/option-writer", "C12-h/vec-writer"))
+    rules_c12.option_writer(ctx, sub_o)
+    rules_c12.vec_writer(ctx, sub_o)
+    chk.floor("optional/repeated wrapper obligations (shared with C12-h)", sub_o.count, 3)
     sub2 = Sub(chk, "C03-c", lambda r: r in ("C04-d/writer-header", "C04-d/reader-header", "C04-d/adpu", "C04-d/marker-constant"))
     rules_c04.run(ctx, sub2)
     chk.floor("APDU length-field obligations (shared with C16/C04)", sub.count + sub2.count, 5)
